@@ -92,6 +92,7 @@ def replay_behaviour(col, b, rng, tmpdir, tag):
     file_kind = None
     obj_unit = funit
     mpick = 0
+    cnames = None
     for si, st in enumerate(b):
         try:
             if st['op'] == 'create':
@@ -100,7 +101,8 @@ def replay_behaviour(col, b, rng, tmpdir, tag):
                     mpick = rng.randrange(nm)
                     obj = pw.sed_object('model_x', wav, aps, lambda a, w: val(mpick, a, w), lambda a, w: unc(mpick, a, w), st['axis'], flux_unit=funit)
                 else:
-                    obj = pw.cube_object(['mod%02d' % i for i in range(nm)], wav, aps, val, unc, st['axis'], with_unc=st['unc'], flux_unit=funit)
+                    cnames = ['mod%02d' % ((i * 7 + 3) % nm) for i in range(nm)] if nm in (2, 3, 4, 5, 6) and 7 % nm else ['mod%02d' % (nm - 1 - i) for i in range(nm)]
+                    obj = pw.cube_object(cnames, wav, aps, val, unc, st['axis'], with_unc=st['unc'], flux_unit=funit)
             elif st['op'] == 'write':
                 path = os.path.join(tmpdir, '%s_%d.fits' % (tag, si))
                 obj.write(path)
@@ -115,8 +117,8 @@ def replay_behaviour(col, b, rng, tmpdir, tag):
                     obj = SEDCube.read(path, order=st['order'], memmap=memmap)
                     obj_unit = funit
             elif st['op'] == 'get_sed':
-                mpick = (st['m'] - 1) % nm
-                obj = obj.get_sed('mod%02d' % mpick)
+                mpick = (st['m'] - 1) % nm          # the model in cube ROW mpick (names are deliberately not in sorted order)
+                obj = obj.get_sed(cnames[mpick])
                 kind = 'sed'
                 obj_unit = funit
         except Exception as e:
